@@ -6,10 +6,13 @@ three consecutive invocations are *aborted*:
   * a step script is SIGKILLed at its k-th command, alone or together with Bob;
   * Bob is killed (os._exit, no finally/finalize) at its k-th kill point --
     every persistent-state save (before write / before rename / after rename),
-    every fs mutation of the builder, around every subprocess / executor job;
+    every fs mutation of the builder, around every subprocess / executor job, and (in part
+    of the cases) every mutating statement inside the sqlite transactions of the develop
+    directory map and the graph caches;
   * SIGINT (user abort) at a virtual instant with -jN;
   * an SCM fails: the upstream of a url SCM (deterministic, SCM-only checkout pinned by
-    digest) is unreachable while the invocation runs.
+    digest) is unreachable while the invocation runs, or the copy of the fetched file is cut
+    short by an errno (ENOSPC / EDQUOT / EIO after part of the data was written).
 Then the stale lock is removed and a fault-free invocation must succeed, every
 package result must equal the clean build of the current project state, and a
 further repeat must execute nothing.  In enumeration cases every kill point of
@@ -53,6 +56,8 @@ def _gen_abort(rng, jobs):
         a["at"] = rng.randint(1, 14)
     elif k == "bob-kill":
         a["point"] = rng.randint(1, 260)
+        if rng.random() < 0.4:
+            a["sql"] = True     # statements inside sqlite transactions are kill points, too
     else:
         a["t"] = rng.choice([0, 0.0005, 0.5, 1.5, 3.0, 10.0, 40.0])
         a["jobs"] = rng.choice([2, 4])
@@ -87,9 +92,15 @@ def gen_case(rng, tier, index):
     if url:
         # the upstream server is unreachable while the invocation runs: an SCM fails
         for a in aborts:
-            if rng.random() < 0.6:
+            r = rng.random()
+            if r < 0.4:
                 a.clear()
                 a.update({"kind": "scm-fail", "jobs": jobs, "sched_seed": rng.getrandbits(32)})
+            elif r < 0.75:
+                # short write while the url SCM copies the file (disk full / quota / I/O error)
+                a.clear()
+                a.update({"kind": "copy-fault", "jobs": jobs, "sched_seed": rng.getrandbits(32), "nth": rng.choice([1, 1, 2]),
+                          "frac": rng.choice([0, 0.3, 0.5, 0.9]), "errno": rng.choice(["ENOSPC", "EDQUOT", "EIO"])})
     post = []
     if pre and rng.random() < 0.6:
         # after the aborted runs the user reverts the edit (or edits again)
@@ -103,7 +114,7 @@ def gen_case(rng, tier, index):
             "final_jobs": rng.choice([1, 2]), "final_seed": rng.getrandbits(32)}
     if rng.random() < (0.35 if tier == "thorough" else 0.12):
         case["enumerate"] = True
-        case["aborts"] = [{"kind": "bob-kill", "jobs": jobs, "sched_seed": rng.getrandbits(32), "point": 1}]
+        case["aborts"] = [{"kind": "bob-kill", "jobs": jobs, "sched_seed": rng.getrandbits(32), "point": 1, "sql": index % 2 == 0}]
         # exhaustive for short invocations; sampled (every k-th point from a seeded offset) beyond
         # 60 points so that one case stays within minutes on a loaded machine
         case["max_points"] = 60 if tier == "thorough" else 10
@@ -121,8 +132,12 @@ def _cfg(a):
         cfg["script_faults"] = [{"nth": a.get("nth"), "match": a.get("match"), "at": a["at"], "kind": "kill"}]
     elif a["kind"] == "bob-kill":
         cfg["kill_at"] = a["point"]
+        if a.get("sql"):
+            cfg["sql_points"] = True
     elif a["kind"] == "sigint":
         cfg["sigint_at"] = a["t"]
+    elif a["kind"] == "copy-fault":
+        cfg["copy_fault"] = {"nth": a["nth"], "frac": a["frac"], "errno": a["errno"]}
     return cfg
 
 def _unlock(proj):
@@ -196,7 +211,8 @@ def run_case(case):
             snap = os.path.join(top, "snap")
             shutil.copytree(proj, snap, symlinks=True)
             # dry run to count the kill points of this invocation
-            r = buildsim.bob(proj, ["dev", "-j", str(a["jobs"]), "root"], {"sched_seed": a["sched_seed"]})
+            sqlp = {"sql_points": True} if a.get("sql") else {}
+            r = buildsim.bob(proj, ["dev", "-j", str(a["jobs"]), "root"], dict(sqlp, sched_seed=a["sched_seed"]))
             npts = r.npoints or 0
             stats.inc("enumerated_kill_points", npts)
             stride = 1
@@ -208,7 +224,7 @@ def run_case(case):
                 common.rmtree(proj)
                 shutil.copytree(snap, proj, symlinks=True)
                 rk = buildsim.bob(proj, ["dev", "-j", str(a["jobs"]), "root"],
-                                  {"sched_seed": a["sched_seed"], "kill_at": k})
+                                  dict(sqlp, sched_seed=a["sched_seed"], kill_at=k))
                 if not rk.killed:
                     break
                 stats.inc("fault_bob_kill")
@@ -228,7 +244,7 @@ def run_case(case):
                 finally:
                     if os.path.isdir(up + ".unreachable"):
                         os.rename(up + ".unreachable", up)
-                fired = (r.killed or any(e[0] in ("script-fault-fired", "SIGINT") for e in r.events)
+                fired = (r.killed or any(e[0] in ("script-fault-fired", "SIGINT", "copy-fault-fired") for e in r.events)
                          or (a["kind"] == "scm-fail" and r.rc != 0))
                 log.append(("abort", i, a["kind"], r.rc, fired, [e[2] for e in r.events if e[0] == "KILL"]))
                 if fired:
@@ -314,6 +330,9 @@ def _directed_url(tier):
         i = len(out)
         if i % 3 == 2:
             a = {"kind": "script-kill", "jobs": 1, "sched_seed": rng.getrandbits(32), "match": "/build/", "at": rng.randint(2, 6)}
+        elif i % 3 == 1:
+            a = {"kind": "copy-fault", "jobs": 1, "sched_seed": rng.getrandbits(32), "nth": 1, "frac": rng.choice([0.3, 0.6]),
+                 "errno": rng.choice(["ENOSPC", "EIO"])}
         else:
             a = {"kind": "scm-fail", "jobs": rng.choice([1, 2]), "sched_seed": rng.getrandbits(32)}
         post = [] if i % 2 == 0 else [{"edit": {"kind": "revert", "to": 0}}]
